@@ -40,6 +40,10 @@ def run(ctx):
     check_hook_authorisation(ctx, model, rule="C04-V4", only={"stableswap_3pool"})
     check_interpolation_wiring(ctx, model)
     check_deposit_wiring(ctx, model)
+    check_curve_inputs(ctx, model)
+    # owed protocol fees: the pending entry is transferred to the collector and zeroed only where transferred (C07-F3's rule)
+    from .C07 import check_collect as _pool_collect
+    _pool_collect(ctx, model, "stableswap_3pool", "stableswap_3pool::commands::collect_protocol_fees", "stableswap_3pool::state::COLLECTED_PROTOCOL_FEES", rule="C04-V1")
     v = ctx.view(UC, "C04-A1")
     if v is None:
         return
@@ -215,3 +219,36 @@ def check_deposit_wiring(ctx, model):
     w = ctx.view(CURVE + "::compute_d", "C04-A5")
     if w is not None:
         check_symmetric(ctx, "C04-A5", w, (2, 3, 4), CURVE + "::compute_d")
+    from .stablemath import check_newton_step
+    nd = ctx.view(CURVE + "::compute_next_d", "C04-A5")
+    if nd is not None:
+        check_newton_step(ctx, "C04-A5", nd, "param(2)", "param(3)", "param(4)", "param(5)", "item(stableswap_3pool::stableswap_math::curve::N_COINS)", CURVE + "::compute_next_d")
+
+
+def check_curve_inputs(ctx, model):
+    """A6: every StableSwap the contract constructs (swap, deposit, the three queries, update_config) is built from
+    (CONFIG.initial_amp, CONFIG.future_amp, the BLOCK HEIGHT of the call, CONFIG.initial_amp_block, CONFIG.future_amp_block):
+    the ramp is defined over block heights, so a timestamp (or any other clock) as `current` makes the effective amplification
+    jump to the target. Parameters are resolved through the call sites up to the entry points."""
+    from .common import resolve_to_callers
+    n = 0
+    want = {0: ("initial_amp",), 1: ("future_amp",), 3: ("initial_amp_block",), 4: ("future_amp_block",)}
+    for p in sorted(model.all_paths("stableswap_3pool")):
+        if "{closure" in p or "::tests::" in p or "::stableswap_math::" in p:
+            continue
+        v = model.view(p)
+        for b, t in v.calls_to(r"^stableswap_3pool::stableswap_math::curve::StableSwap::new$"):
+            n += 1
+            ctx.fn_seen.add(p)
+            bad = []
+            for ai, proj in want.items():
+                os_ = v.origins_of_operand(t["args"][ai], at=v.at_term(b))
+                if not (os_ and all(o.kind == "load" and o.a.endswith("stableswap_3pool::state::CONFIG") and tuple(o.proj) == proj for o in os_)):
+                    bad.append("arg %d from %s (must be CONFIG.%s)" % (ai, sorted(map(repr, os_)), proj[0]))
+            cur = resolve_to_callers(model, p, v.origins_of_operand(t["args"][2], at=v.at_term(b)))
+            ok_cur = bool(cur) and all(o.kind == "param" and tuple(o.proj) == ("block", "height") for o in cur)
+            if not ok_cur:
+                bad.append("current from %s (must be env.block.height)" % sorted(map(repr, cur)))
+            ctx.ob("C04-A6", "%s|curve-built-from-the-stored-ramp-and-the-block-height#%d" % (p, n), not bad,
+                   "; ".join(bad) if bad else "StableSwap::new(CONFIG.initial_amp, CONFIG.future_amp, env.block.height, CONFIG.initial_amp_block, CONFIG.future_amp_block)", v.where(b))
+    ctx.floor("C04-A6", "StableSwap::new call sites", n, 5)
